@@ -108,8 +108,17 @@ def main():
     if not templates:
         print('UNDECIDED property=%s reason=no units' % a.prop)
         return 2
+    def run_one(t):
+        r_ = pipeline.run_unit(t, tier)
+        # thorough tier: a unit whose larger bounds do not finish within the budget falls back to its per-change bounds
+        # (the result then says so: it is a proof for the quick-tier bounds only, never counted as a thorough one)
+        if tier == 'thorough' and r_.get('status') == 'undecided' and 'time-out' in str(r_.get('reason')):
+            why = r_.get('reason')
+            r_ = pipeline.run_unit(t, 'quick')
+            r_['fallback'] = 'thorough bounds: %s; result is for the quick-tier bounds' % why
+        return r_
     with ThreadPoolExecutor(max_workers=a.jobs) as ex:
-        results = list(ex.map(lambda t: pipeline.run_unit(t, tier), templates))
+        results = list(ex.map(run_one, templates))
     known = load_known()
     violations = []
     known_hits = []
@@ -133,6 +142,13 @@ def main():
               'cbmc_flags': (info.get('cbmc', {}).get('all', []) + info.get('cbmc', {}).get(tier, [])) if info else [],
               'rules_fired': info.get('rules_fired'), 'reason': r.get('reason'),
               'enforced': info.get('enforce'), 'replaced_by_contract': info.get('replace')}
+        if r.get('fallback'):
+            # the unit was proved with its quick-tier bounds: report those
+            ev['fallback'] = r['fallback']
+            ev['defines'] = (info.get('defs', {}).get('all', []) + info.get('defs', {}).get('quick', [])) if info else []
+            ev['cbmc_flags'] = (info.get('cbmc', {}).get('all', []) + info.get('cbmc', {}).get('quick', [])) if info else []
+            assumptions.append('[%s] %s' % (r['unit'], r['fallback']))
+            print('NOTE property=%s unit=%s %s' % (a.prop, r['unit'], r['fallback']))
         solver_s += r['solver_s']
         for f in info.get('functions', []):
             funcs.append('%s (%s:%s) [unit %s, %s]' % (f['qualified'], f['file'], f['line'], r['unit'], kind))
